@@ -135,7 +135,9 @@ fn render_item(it: &Value) -> String {
             )
         }
         "struct" => {
-            let head = format!("{}pub struct {}", render_attrs(it, ""), s(it, "name"));
+            // a serde struct may borrow: `pub struct LogLine<'a> { text: &'a str }` (a lifetime is its only generic parameter)
+            let lt = if it.get("lifetime").and_then(|x| x.as_bool()).unwrap_or(false) { "<'a>" } else { "" };
+            let head = format!("{}pub struct {}{}", render_attrs(it, ""), s(it, "name"), lt);
             match s(it, "shape").as_str() {
                 "unit" => format!("{};\n", head),
                 "tuple" => format!("{}(pub i32, pub String);\n", head),
@@ -568,7 +570,7 @@ pub const INJECTED: &[&str] = &[
     "WebviewWindow", "tauri::WebviewWindow", "tauri::ipc::Request<'_>", "tauri::State<'_, std::sync::Mutex<Db>>",
     "AppHandle<R>", "::tauri::AppHandle", "::tauri::State<'_, Db>", "State<'_, Mutex<Vec<Channel<LogLine>>>>", "tauri::State<'_, Registry<Channel<u8>>>",
 ];
-pub const NOT_INJECTED: &[&str] = &["Window", "State", "my::AppState", "Request", "other::Window", "Channel"];
+pub const NOT_INJECTED: &[&str] = &["Window", "State", "my::AppState", "Request", "other::Window", "Channel", "tauri::Url", "tauri::PhysicalPosition<i32>", "tauri::utils::config::WindowConfig", "tauri::http::Method"];
 pub const CHANNELS: &[&str] = &["Channel<{}>", "tauri::ipc::Channel<{}>", "tauri::Channel<{}>", "::tauri::ipc::Channel<{}>"];
 pub const ODD_CHANNELS: &[&str] = &["ipc::Channel<{}>", "my::Channel<{}>"];
 
@@ -630,7 +632,10 @@ fn emit_expr(rng: &mut Rng, ev_names: &[&str], type_names: &[String], locals_all
         3 => json!({"k": "path", "segs": ["window"]}),
         4 => json!({"k": "path", "segs": ["webview"]}),
         5 => json!({"k": "field", "base": {"k": "path", "segs": ["self_like"]}, "name": "app"}),
-        6 => json!({"k": "mcall", "recv": {"k": "path", "segs": ["ctx"]}, "method": "handle", "args": []}),
+        6 => if rng.chance(1, 2) { json!({"k": "mcall", "recv": {"k": "path", "segs": ["ctx"]}, "method": "handle", "args": []}) } else {
+            // … of a method call that takes arguments
+            json!({"k": "mcall", "recv": {"k": "path", "segs": ["handles"]}, "method": "handle_for", "args": [{"k": "ref", "e": {"k": "path", "segs": ["label"]}}, {"k": "lit", "text": "2", "lit": "int"}]})
+        },
         7 => json!({"k": "path", "segs": ["handle"]}),        // not recognised
         _ => json!({"k": "field", "base": {"k": "path", "segs": ["state"]}, "name": "emitter"}), // not recognised
     };
@@ -720,9 +725,9 @@ pub fn random_project(rng: &mut Rng, nfiles: usize, adversarial: bool, externs: 
     for t in 0..ntypes {
         // stems include names ending in `Schema` / `Params`-like words and names of well-known std types used as *user* types
         let name = if rng.chance(1, 6) {
-            (*rng.pick(&["TableSchema", "Path", "PathBuf", "Duration", "Value", "Params", "Channel0", "Result0", "OptionLike", "設定", "用户", "Ünit", "Ωmega", "MapRegion", "RecordingInfo", "Mapper", "Records", "PromiseLike", "ArrayBuf"])).to_string() + if t % 2 == 0 { "" } else { "X" }
+            (*rng.pick(&["TableSchema", "Path", "PathBuf", "Duration", "Value", "Params", "Channel0", "Result0", "OptionLike", "設定", "用户", "Ünit", "Ωmega", "MapRegion", "RecordingInfo", "Mapper", "Records", "PromiseLike", "ArrayBuf", "Rgb", "RGB", "Vector3", "VecStats", "HashSetLike", "BoxedValue", "ResultCode", "Sensor_Reading", "snake_type", "HTTPServer"])).to_string() + if t % 2 == 0 { "" } else { "X" }
         } else {
-            format!("{}{}", rng.pick(&["User", "Order", "Item", "Config", "Event", "Status", "Mode", "DbConfig", "AppUser", "SubItem"]), t)
+            format!("{}{}", rng.pick(&["User", "Order", "Item", "Config", "Event", "Status", "Mode", "DbConfig", "AppUser", "SubItem", "Sensor_Reading", "HTTPConn"]), t)
         };
         // names that contain another type's name as a proper prefix / suffix (`Config` / `DbConfig` / `ConfigItem`); the
         // shorter one, defined later, refers to the longer one (`Config { db: DbConfig }`)
@@ -816,7 +821,11 @@ pub fn random_project(rng: &mut Rng, nfiles: usize, adversarial: bool, externs: 
                     fields.push(json!({"name": "linked", "vis": "pub", "ty": ty_json(&RTy::Named(l.to_string())), "attrs": []}));
                 }
             }
-            items_per_file[f].push(json!({"k": "struct", "name": name, "attrs": attrs, "shape": shape, "fields": fields}));
+            let lifetime = shape == "named" && rng.chance(1, 6);
+            if lifetime {
+                fields.push(json!({"name": "borrowed_text", "vis": "pub", "ty": ty_json(&RTy::RefL(Box::new(RTy::Prim("str".into())))), "attrs": []}));
+            }
+            items_per_file[f].push(json!({"k": "struct", "name": name, "attrs": attrs, "shape": shape, "fields": fields, "lifetime": lifetime}));
         }
         if serde {
             type_names.push(name);
@@ -853,7 +862,7 @@ pub fn random_project(rng: &mut Rng, nfiles: usize, adversarial: bool, externs: 
     let ev_names: Vec<&str> = if adversarial {
         vec!["user-updated", "sync_done", "task:progress", "a/b", "x", "user-updated", "Mixed-Case_1"]
     } else {
-        vec!["user-updated", "sync-done", "task-progress", "download_finished", "x", "DB-READY", "db-ready"]
+        vec!["user-updated", "sync-done", "task-progress", "download_finished", "x", "DB-READY", "db-ready", "ready", "on-ready", "on_ready"]
     };
     let ncmds = 1 + rng.below(3 + nfiles);
     let mut cmd_names_so_far: Vec<String> = Vec::new();
@@ -1160,6 +1169,9 @@ pub fn random_project(rng: &mut Rng, nfiles: usize, adversarial: bool, externs: 
     files.push(json!({"path": "target/debug/build/gen.rs", "items": [{"k": "fn", "name": "hidden_in_target", "attrs": [attr("tauri::command")], "vis": "pub", "async": false, "params": [], "ret": null, "body": []}]}));
     files.push(json!({"path": ".git/hooks/x.rs", "items": [{"k": "fn", "name": "hidden_in_git", "attrs": [attr("tauri::command")], "vis": "pub", "async": false, "params": [], "ret": null, "body": []}]}));
     files.push(json!({"path": "notes.txt", "raw": "#[tauri::command]\nfn not_rust() {}\n"}));
+    if rng.chance(1, 3) {
+        files.push(json!({"path": "Cargo.toml", "raw": format!("[package]\nname = \"{}\"\nversion = \"0.1.0\"\nedition = \"2021\"\n\n[dependencies]\ntauri = \"2\"\n", rng.pick(&["tauri-plugin-vault", "my-app", "tauri-plugin-fs-extra"]))}));
+    }
     if rng.chance(1, 2) {
         // text that does not parse, also with multi-byte characters in front of the error on the same line
         let raw = *rng.pick(&["#[tauri::command]\npub fn broken( {\n", "#[tauri::command]\npub fn t() { let title = \"設定\" \"概要\"; }\n",
